@@ -33,7 +33,9 @@ func c01status(c *Ctx) {
 			ps := c.paths(rule, cl, px.Config{})
 			mk := calleeIs(respPkg + ".NewWithCodeResponseWriter")
 			c.forall(rule, "rest/handler.BreakerHandler$serve#status", "the handler writes into the status recorder, and the promise is accepted exactly when the recorded code is < 500", cl, ps, func(p *px.Path) (bool, string) {
-				nx := p.First(func(e *px.Event) bool { return e.Kind == px.EvCall && e.Call.Method != nil && e.Call.Method.Name() == "ServeHTTP" })
+				nx := p.First(func(e *px.Event) bool {
+					return e.Kind == px.EvCall && e.Call.Method != nil && e.Call.Method.Name() == "ServeHTTP"
+				})
 				if nx == nil {
 					return true, ""
 				}
